@@ -1,6 +1,7 @@
 From Coq Require Import Extraction ExtrOcamlBasic.
 From Common Require Import Bytes Outcome Drv Blake2b.
+From TrieCodec Require Import Dencode.
 From C07 Require Import Model.
 Extraction "model.ml" drv_b2n drv_n2b drv_z_of_n drv_n_of_z drv_nat_of_n drv_n_of_nat
   node_decode node_decode_pinned codec_decode codec_decode_pinned encode view cview wf_node
-  encode_header decode_header variant_name variant_of_nat hash256 zb_len zb_bytes lenN.
+  encode_header decode_header variant_name variant_of_nat hash256 zb_len zb_bytes lenN dencode dnode_big.
